@@ -6,7 +6,7 @@ CHECKS = {
     text='Every generated count (tens of thousands per quick run over all 11 rule names and the arithmetic/option matrix, '
          'weighted towards degenerate, withdrawn/write-in and sure-loser profiles) is executed for real under a CPU budget; '
          'the oracle checks seats filled = min(seats, electable), every eligible candidate decided exactly once, withdrawn '
-         'candidates inert at every snapshot, and that no exception escapes. A quarter of the cases hand the configuration over another way (ballot-file [droop] options, split file/caller, an Options object, no options argument), a tenth come from the boundary catalogue (elections in which a rule compared two exactly equal values). Sampling, not enumeration: holds on what was run.',
+         'candidates inert at every snapshot, and that no exception escapes. A quarter of the cases hand the configuration over another way (ballot-file [droop] options, split file/caller, an Options object, no options argument), a tenth come from the boundary catalogue (elections in which a rule compared two exactly equal values), one case in eight carries hostile candidate names, and every shard opens with elections of 257-330 candidates under the Gregory-family rules. Sampling, not enumeration: holds on what was run.',
     note='The electable set is read from the ballot file text, not from the package\'s reading of it. Trusts the generator to produce valid profiles (parser-rejected ones are counted, not judged); budget overruns '
          'are re-run alone with 20x budget before being reported; meek/warren+rational overruns are not explored by the property\'s own carve-out.'),
  'C02': dict(level='exploration', ref='DESIGN.md 3/C02',
@@ -43,8 +43,8 @@ CHECKS = {
     technique='runtime monitoring: offline checker over the traced history (lowest / sure-loser / largest-surplus predicates, tie logging and tie order, Scottish prior-stage rule) + relational monitor over two executions with different tie orders',
     text='Every exclusion group of every generated count is judged against its pre-state; every one-at-a-time surplus choice must be the largest; every tie '
          'must be logged with the right tied set and resolved by tie order (Scotland: most recent differing stage, then lot), and no tie may be logged without '
-         'one. Each profile is re-counted with another tie order; tie-free records must be identical in actions, raw snapshots, report, dump and json.',
-    note='Exclusions whose candidates differ by less than twice the guarded tolerance are not evaluated (non-transitive comparison). Scottish shared-extreme sets: any member accepted.'),
+         'one. A fifth of the Meek-family cases run under very coarse guarded arithmetic (precision 0-2). Each profile is re-counted with another tie order; tie-free records must be identical in actions, raw snapshots, report, dump and json.',
+    note='Exclusions whose candidates differ by less than twice the guarded tolerance are not evaluated as to the tied set (non-transitive comparison), but the excluded candidate itself must stand within one tolerance (plus the Meek surplus) of the true minimum. Scottish shared-extreme sets: any member accepted.'),
  'C08': dict(level='exploration', ref='DESIGN.md 3/C08',
     technique='runtime monitoring: hook invariant at the snapshots taken right after a Meek/Warren distribution (conservation on raw values, keep-factor ranges, end-of-iteration discipline); outside counter on the arithmetic div to measure iteration depth',
     text='At every fresh snapshot (meek/warren: iterate and end; meek-prf: begin/end and elect/tie/defeat before any exclusion of the round) of every '
@@ -62,7 +62,7 @@ CHECKS = {
     technique='runtime contracts (postconditions against a fractions.Fraction shadow) wrapped from outside around every public operator and classmethod of Fixed and Rational; exhaustive small grid + random operands + contracts left on during real counts',
     text='Every call of +,-,*,/,//,__div__,mul,div,muldiv (both roundings),neg,pos,abs,bool,six comparisons,min on Fixed and of the arithmetic operators '
          '(incl. reflected), mul/div/muldiv on Rational is checked against exact rational arithmetic: exactness, floor rounding, +1 ulp only when inexact and '
-         'round=up, result type, operands not mutated. The grid [-60,60]^2 (+boundaries) and [-13,13]^3 x precision 0..4 is swept completely; random operands to 10^40 (Rational: also operands closer than a double resolves or beyond its range; min and the six comparisons decided by integer cross-multiplication), '
+         'round=up, result type, operands not mutated. The grid [-60,60]^2 (+boundaries) and [-13,13]^3 x precision 0..4 is swept completely; random operands to 10^40 (Rational: also operands closer than a double resolves or beyond its range; min and the six comparisons decided by integer cross-multiplication; operands of 100-700 digits), '
          'precision to 30; an exception on valid operands is a violation; tens of millions of in-situ evaluations inside real counts per quick run.',
     note='Trusted shadow: Python ints and fractions.Fraction. Zero divisors not judged. Small grid exhaustive; everything else sampled.'),
  'C13': dict(level='exploration', ref='DESIGN.md 3/C13',
@@ -75,13 +75,13 @@ CHECKS = {
  'C14': dict(level='exploration', ref='DESIGN.md 3/C14',
     technique='runtime contract on __str__ of Fixed, Guarded and Rational (half-up of the exact value, digit count, underscore, sign, value unchanged), swept around carries and left installed while real counts are rendered',
     text='Every str() of a value object is checked against the exact value rounded half-up at the display digits. All raw values in [-1300,1300] and within 3 of every carry/half-unit '
-         'boundary are swept for precision, guard, display in 0..5 (complete for that sub-space); random magnitudes to 10^40 and exact ties +-1 at up to 60 dropped digits; rational ties; every figure printed by report/dump/json of thousands of counts goes through the contract; after a count of another arithmetic class the previous count is rendered again and must read exactly as before.',
+         'boundary are swept for precision, guard, display in 0..5 (complete for that sub-space); random magnitudes to 10^40 and exact ties +-1 at up to 60 dropped digits; the class must print the configured number of digits (display 0 included); rational ties; every figure printed by report/dump/json of thousands of counts goes through the contract; after a count of another arithmetic class the previous count is rendered again and must read exactly as before.',
     note='Known finding C14/guarded-p0-underscore. Negative exact ties: half-up and half-away-from-zero both accepted. Whether renderings use str() of the recorded value is checked by C18.'),
  'C15': dict(level='exploration', ref='DESIGN.md 3/C15',
     technique='runtime monitoring, round-trip oracle: generated election structure -> adversarial well-formed BLT rendering -> real parser -> every public attribute compared with the structure; invariants of an accepted profile',
     text='~180k feature-rich renderings per quick run (nicknames as references, [tie], -n/[withdrawn]/both, [undeclared], [droop], ballot ids, empty and all-withdrawn '
          'ballots, equal ranks with withdrawn members, names with spaces/#/comment markers/non-ASCII/empty, source/comment, junk, nested and # comments incl. quoted words '
-         'inside comments and comments inside option lists, random layout, BOM via path=, 255/256/257/300 candidates with [tie] and nicknames, ballot ids differing only in blanks, number-like nicknames such as 0_3 and +2, several [undeclared] items) are parsed by the real ElectionProfile and compared attribute by attribute.',
+         'inside comments and comments inside option lists, random layout, BOM via path=, 255/256/257/300 candidates with [tie] and nicknames, ballot ids differing only in blanks, number-like nicknames such as 0_3 and +2, several [undeclared] items; a file corrected in place - same path, same length, read again at once) are parsed by the real ElectionProfile and compared attribute by attribute.',
     note='Well-formedness is the grammar of DESIGN Appendix B; the renderer never emits forms outside it. Expectation model (withdrawn removal, dropped ballots, equal-rank demotion) is ~40 lines in vf/blt.py.'),
  'C16': dict(level='exploration', ref='DESIGN.md 3/C16',
     technique='runtime monitoring with hostile inputs: complete prefix / single-token-mutation sets of seed files, token soups and arbitrary unicode fed to the real parser and the 11 constructors; outcome oracle {valid profile, ElectionProfileError}; CPU watchdog',
@@ -101,7 +101,7 @@ CHECKS = {
  'C17': dict(level='exploration', ref='DESIGN.md 3/C17',
     technique='runtime monitoring: complete enumeration of {absent,v1,v2} x {file layer, caller layer} per option name and rule against a precedence table, recorded layers, observable arithmetic/rule attributes and report header; relational monitor for statutory counts under junk options',
     text='All 891 layer assignments (11 rules x 9 option names x 9 layer combinations, file layer parsed from real [droop ...] text) are checked for effective value, recorded layers, '
-         'observable effect and the Unused/Overridden header lines (a third of them with the file layer written as two [droop] items; Options objects built in one go or piecemeal); ~17k statutory count pairs with junk options from caller / file / both must be identical in actions, raw snapshots, dump and winners.',
+         'observable effect and the Unused/Overridden header lines (a third of them with the file layer written as two [droop] items; Options objects built in one go or piecemeal, the file layer also through update(file_options=True)); a refusal (UsageError) is accepted only if the effective value alone is refused too, and ballot-file values the rule would refuse are enumerated under an acceptable caller value; ~17k statutory count pairs with junk options from caller / file / both must be identical in actions, raw snapshots, dump and winners.',
     note='The declared/forced option tables are transcribed from the rules; assignments refused with UsageError are outside the claim. Enumeration complete for the stated value sets only.'),
  'C19': dict(level='fault_enumeration', ref='DESIGN.md 3/C19',
     technique='fault injection by sys.monitoring: KeyboardInterrupt raised from a LINE callback at the k-th executed line of package code during Election.count(), for every k of each swept count; renderers and prefix property checked after each',
@@ -112,7 +112,7 @@ CHECKS = {
  'C20': dict(level='exploration', ref='DESIGN.md 3/C20',
     technique='relational runtime monitor over process histories: byte comparison of report+dump+json of a target election after random in-process histories of other elections against a reference rendered in a fresh subprocess; recount of the same profile object',
     text='~900 targets x 6 histories per quick run (1-12 earlier elections of all rules/arithmetics, biased to end on the target\'s arithmetic class with different precision/guard/display, '
-         'incl. equal precision+guard sums with different splits, guard 0, display above precision): renderings must equal the fresh-process reference byte for byte (a target that ends in an error there must end in the same kind of error); a quarter of all elections are configured in the ballot file only and built as Election(profile); 8% of targets run at 4400-5200 digits; the same profile object recounted must reproduce itself.',
+         'incl. equal precision+guard sums with different splits, guard 0, display above precision): renderings must equal the fresh-process reference byte for byte (a target that ends in an error there must end in the same kind of error); a quarter of all elections are configured in the ballot file only and built as Election(profile); 8% of targets run at 4400-5200 digits; the same profile object recounted must reproduce itself; Droop.main is called in sequences with one reused options dict and with equal-timestamp ballot files copied over one path, each call compared with the same file on its own.',
     note='Scope as in the property: each election is constructed, counted and rendered before the next is constructed.'),
  'C05': dict(level='exploration', ref='DESIGN.md 3/C05',
     technique='runtime monitoring: offline oracle over (ballots, winners) of completed real counts - solid-coalition support counted conservatively for every prefix set against k x initial quota + the stated allowance; one-seat majority clause',
